@@ -71,7 +71,29 @@ for it in range(N):
     for d in range(n):
         tot = float(nv.iloc[d]); got = t.strategy.notional_values.loc[idx[d]]
         if abs(float(got) - tot) > 1e-6: bad("rebalance-scales-to-SetNotional", date=str(idx[d].date()), got=got, want=tot)
+    # renormalised result: the index moves additively by PAR x (change in value net of THAT date's flows) / normalising value, with
+    # capital flows on the first date (initial capital) and during the run
+    from bt.backtest import RenormalizedFixedIncomeResult
+    cap0 = float(rs.choice([0.0, 250000.0, 1e6]))
+    fl = pd.DataFrame({"r2": np.where(rs.rand(n) < 0.3, rs.choice([-5e4, 1e5, 2.5e5], size=n), 0.0)}, index=idx)
+    class Flows(bt.Algo):
+        def __call__(self, target):
+            a = float(fl["r2"].loc[target.now]) if target.now in fl.index else 0.0
+            if a != 0.0: target.adjust(a)
+            return True
+    st3 = FixedIncomeStrategy("r2", [Flows(), A.WeighSpecified(cp=-0.4, fi=0.6), A.SetNotional("nv3"), A.Rebalance()], children=[CouponPayingSecurity("fi"), CouponPayingSecurity("cp")])
+    nv3 = pd.Series(1e6, index=idx)
+    t3 = bt.Backtest(st3, data[["fi", "cp"]], additional_data={"coupons": coup[["fi", "cp"]], "nv3": nv3}, integer_positions=False, initial_capital=cap0); t3.run(); evals += 1
+    vnorm = float(rs.choice([1e6, 2e6]))
+    rn = RenormalizedFixedIncomeResult(vnorm, t3).prices["r2"]
+    vals, flows = t3.strategy.values, t3.strategy.flows
+    ref = [bt.core.PAR]
+    for d in range(1, len(vals)):
+        ref.append(ref[-1] + bt.core.PAR * ((float(vals.iloc[d]) - float(vals.iloc[d - 1])) - float(flows.iloc[d])) / vnorm)
+    for d in range(len(vals)):
+        if abs(float(rn.iloc[d]) - ref[d]) > 1e-6 * max(1.0, abs(ref[d])):
+            bad("renormalised-index-moves-by-change-in-value-net-of-the-date's-flows", date=str(vals.index[d].date()), got=float(rn.iloc[d]), want=ref[d], initial_capital=cap0, flows=[float(x) for x in flows.values]); break
     if it < 1: samples.append(dict(tables=int(which), final_price=float(s.price)))
 print("JSON:" + json.dumps(dict(evaluations=evals, distinct=len(distinct), failures=fails[:5], samples=samples,
-      rule="one fixed-income strategy holding all five security types, long and short, random coupon schedules, holding-cost tables supplied none/long/short(subset)/both; a notional schedule with a zero",
+      rule="one fixed-income strategy holding all five security types, long and short, random coupon schedules, holding-cost tables supplied none/long/short(subset)/both; a notional schedule with a zero; the renormalised result recomputed date by date with initial capital 0 / non-zero and random capital flows",
       bound="%d runs of 8 dates" % N)))
